@@ -218,6 +218,16 @@ func (sc *c12Scenario) Run(s *simrt.Sim) {
 			a := actors[it.mailbox]
 			if sc.AskEvery > 0 && it.id%sc.AskEvery == 0 && !it.late {
 				// submitted as a question whose answer the sender does not wait for
+				if it.id%(2*sc.AskEvery) == 0 {
+					// ... or a question asked with no patience at all (timeout 0 or negative): the question is
+					// still a message that was sent, whatever the asker gets back
+					it.sub = h.Do(name, "AskOnceWithTimeout(<=0)", it.id, func() (interface{}, error) {
+						fpgo.AskNewGenerics[int, int](it.id).AskOnceWithTimeout(a, time.Duration(-(it.id % 3)))
+						return nil, nil
+					})
+					sc.probes["message-submitted-through-AskOnceWithTimeout-0"]++
+					return
+				}
 				it.sub = h.Do(name, "AskChannel", it.id, func() (interface{}, error) {
 					fpgo.AskNewGenerics[int, int](it.id).AskChannel(a)
 					return nil, nil
